@@ -199,6 +199,15 @@ def mutate(rng: random.Random, s: str) -> str:
 # ---------------------------------------------------------------- tree invariants (C06)
 
 
+def views_of(pairs) -> str:
+    """Pairs.tokens() / Pairs.flatten() in the driver's `T` format"""
+    from pest.pairs import Start
+
+    tk = [f"{'S' if isinstance(t, Start) else 'E'}:{t.rule.name}:{t.pos}" for t in pairs.tokens()]
+    fl = [f"{p.name}:{p.start}:{p.end}:{p.tag if p.tag is not None else '-'}" for p in pairs.flatten()]
+    return f"tok {','.join(tk) or '-'} flat {','.join(fl) or '-'}"
+
+
 def check_tree(pairs, text: str, k: int, nonsilent: set, tags: set, start_silent: bool) -> str | None:
     """C06 through the public Pair/Pairs API; returns a description of the first violation"""
     import json as _json
@@ -535,6 +544,9 @@ def eval_grammar(prop: str, rng: random.Random, gname: str, gtext: str, rules_as
     expect.append(("setup", "ok", base))
     lines.append("O " + (",".join(passes) or "-"))
     expect.append(("O", oser, base) if "O" in plan["corr"] else ("ignore", None, base))
+    # on which grammars do the theorems' hypotheses hold (evaluated by the model, recorded in the evidence)
+    lines += ["HY g", "HY og"]
+    expect += [("hyps", "g", base), ("hyps", "og", base)]
 
     names = md.grammar_rule_names()
     nonsilent = {n for n, r in md.p0.rules.items() if not r.modifier & SILENT and not isinstance(r, BuiltInRule)} | {"EOI"}
@@ -599,6 +611,9 @@ def eval_grammar(prop: str, rng: random.Random, gname: str, gtext: str, rules_as
                     e = check_tree(pairs, text, k, nonsilent, tags, start_silent)
                     if e:
                         bad(e, mode=m)
+                    # tokens()/flatten() of the implementation against tokensL/flattenL of the model (ties Pairs.lean)
+                    lines.append(f"T {m} {start} {k} {FUEL} {enc_in}")
+                    expect.append(("views", views_of(pairs), {**case, "layer": "views:" + m}))
         elif prop == "C07":
             for m in MODES:
                 again = run_struct(md.parse[m], start, text, k)
@@ -884,11 +899,30 @@ def _worker(job):
         for kind in ("skip", "squash"):
             inputs3 = small_inputs("abc", 6 if tier == "thorough" else 5) if kind == "skip" else \
                 small_inputs("abAB1", 4 if tier == "thorough" else 3) + ["ab1", "abc", "aBc", "1a", "\n", "\r\n", "ba b"]
-            for _ in range(10 if tier == "thorough" else 2):
+            for _ in range(10 if tier == "thorough" else (2 if kind == "skip" else 4)):
                 rules = G.gen_skip_template(rng) if kind == "skip" else G.gen_squash_template(rng)
                 if not G.well_formed(rules):
                     continue
                 gtext = G.show_grammar(rules)
+                if kind == "squash":
+                    # every short input over the characters the choice itself mentions (bounds, first characters)
+                    def lit_chars(e, acc):
+                        if isinstance(e, tuple):
+                            if e and e[0] in ("str", "ci"):
+                                acc |= set(e[1]) | {c.swapcase() for c in e[1]}
+                            elif e and e[0] == "range":
+                                acc |= {e[1], e[2]}
+                            else:
+                                for x in e[1:]:
+                                    lit_chars(x, acc)
+                        elif isinstance(e, list):
+                            for x in e:
+                                lit_chars(x, acc)
+                        return acc
+                    chars = sorted(lit_chars(rules["r"][1], set()))
+                    if len(chars) > 6:
+                        chars = rng.sample(chars, 6)
+                    inputs3 = small_inputs("".join(chars) or "a", 4 if tier == "thorough" else 3) + ["ab1", "abc", "aBc", "1a", "\n", "\r\n", "ba b"]
                 signal.alarm(120)
                 try:
                     eval_grammar(prop, rng, "opt-template:" + kind, gtext, rules, choose_passes(rng, rng.randrange(3)),
@@ -980,6 +1014,17 @@ def _worker(job):
             out["stats"]["corr_checked"] += 1
             if got != want and "oof" not in (got, want):
                 corr.append({**meta, "request": ln[:2000], "model": got[:2000], "impl": want[:2000], "layer": meta.get("layer", kind)})
+        elif kind == "hyps":
+            for kv in got.split():
+                if "=" in kv:
+                    out["stats"][f"hyp:{want}:{kv}"] += 1
+        elif kind == "views":
+            if got == "none":
+                out["stats"]["views_model_no_answer"] += 1
+            else:
+                out["stats"]["views_checked"] += 1
+                if got != want:
+                    corr.append({**meta, "request": ln[:2000], "model": got[:2000], "impl": want[:2000]})
         elif kind == "spec":
             out["stats"]["spec_checked"] += 1
             for m, mine in spec_compare(want, got):
